@@ -79,6 +79,9 @@ def mk_data(spec):
         return RawPlutusData(CBORTag(tag, body))
     if k == "tag102":
         return RawPlutusData(CBORTag(102, [spec[1], IndefiniteList([mk_prim(f) for f in spec[2]])]))
+    if k == "constr_ie":      # constructor whose EMPTY field list is written 9f ff (as some off-chain tools do)
+        cid = spec[1]
+        return RawPlutusData(CBORTag(121 + cid if cid < 7 else 1280 + cid - 7, IndefiniteList([])))
     if k == "pd0":
         return PD0(spec[1], bytes.fromhex(spec[2]))
     if k == "pd1":
@@ -112,6 +115,9 @@ def ref_data(spec):
         cid = spec[1]
         f = [ref_data(s) for s in spec[2]]
         return R.Tag(121 + cid if cid < 7 else 1280 + cid - 7, R.IndefList(f) if f else [])
+    if k == "constr_ie":
+        cid = spec[1]
+        return R.Tag(121 + cid if cid < 7 else 1280 + cid - 7, R.IndefList([]))
     raise ValueError(k)
 
 
@@ -485,6 +491,10 @@ def gen(rng, force=None):
             m = next_marker()
             o["redeemer"] = red(m)
             a["marker"] = m
+        elif loc == "witness" and rng.random() < 0.5:
+            # the native policy script is handed over through `builder.native_scripts` (no add_minting_script call)
+            o = {"op": "native_script", "script": spec}
+            a["loc"] = "native_scripts"
         attach.append(a)
         ops_free.append(o)
         ops_free.append({"op": "mint", "assets": [[spec, rng.choice(["", "61", "6262"]), rng.randint(1, 5)]]})
@@ -591,6 +601,12 @@ def gen(rng, force=None):
     # ---- extra datum in the witness set (no script needed), redeemer form, buffers, cost models
     if f.get("out_datum", rng.random() < 0.15):
         ops_free.append({"op": "x_output_datum", "addr": "k1", "coin": 2000000, "datum": gen_top_datum(rng)})
+    if f.get("twin_datums", rng.random() < 0.12):
+        # two different datums (different bytes, different hashes) that PRINT alike: the same constructor with its empty
+        # field list in definite / indefinite framing, or two typed classes' instances vs. their raw form
+        cid = rng.choice([0, 1, 6, 7])
+        ops_free.append({"op": "x_output_datum", "addr": "k1", "coin": 2000000, "datum": ["constr", cid, []]})
+        ops_free.append({"op": "x_output_datum", "addr": "k1", "coin": 2100000, "datum": ["constr_ie", cid]})
     use_list = f.get("use_list", rng.random() < 0.4)
     if use_list:
         ops_free.append({"op": "redeemer_list"})
@@ -786,6 +802,8 @@ def model_ops(sc, cx):
         elif k in ("x_minting_script", "x_withdrawal_script", "x_certificate_script"):
             out.append({"k": k[2:], "script": [spec_kind(o["script"], o.get("raw")), spec_hash(o["script"]).hex()],
                         "ref": utxo_ref(cx, o["ref_utxo"]) if o.get("script_in") == "ref" else None, "red": model_red(o)})
+        elif k == "native_script":
+            out.append({"k": "native_script", "script": [spec_kind(o["script"], False), spec_hash(o["script"]).hex()]})
         elif k == "cert":
             out.append({"k": "cert"})
         elif k in ("mint", "x_mint_set"):
